@@ -241,13 +241,15 @@ package crypto
 //@ assigns s.y[:]
 
 //@ func (*feldmanVSSstate).Start mode int props C10 C09
-//@ requires vssInv(s)
-//@ assigns *s, s.running, s.processor.nPrivate, s.processor.nBroadcast, s.processor.sentComplaint[:], s.processor.sentAnswer[:], s.processor.sentVector[:]
+//@ requires vssCore(s)
+//@ assigns *s, s.running, ghost(s.processor)
 //@ ensures [reject-running] old(s.running) ==> iserr(result, *dkgInvalidStateTransitionError) && nothingAssigned()
 //@ ensures [started] !old(s.running) && result == nil ==> s.running
 //@ ensures [failed-start-leaves-idle] !old(s.running) && result != nil ==> !s.running
-//@ ensures [dealer-ready] s.running && s.myIndex == s.dealerIndex ==> len(s.a) == s.threshold+1
-//@ ensures [inv] vssInv(s)
+//@ ensures [dealer-ready] !old(s.running) && s.running && s.myIndex == s.dealerIndex ==> len(s.a) == s.threshold+1 && s.vAReceived && s.xReceived && len(s.vA) == s.threshold+1 && len(s.y) == s.size
+//@ ensures [non-dealer-untouched] !old(s.running) && s.myIndex != s.dealerIndex ==> unchanged(s.vAReceived) && unchanged(s.xReceived) && unchanged(s.validKey) && unchanged(s.vA) && unchanged(s.y) && unchanged(s.a)
+//@ ensures [failed-start-untouched] !old(s.running) && result != nil ==> unchanged(s.vAReceived) && unchanged(s.xReceived) && unchanged(s.validKey)
+//@ ensures [inv] vssCore(s) && unchanged(s.dkgCommon) && unchanged(s.dealerIndex) && (old(vssInv(s)) ==> vssInv(s))
 
 //@ func (*feldmanVSSstate).generateShares mode int props C06 C09
 //@ requires vssCore(s) && s.running
@@ -323,7 +325,7 @@ package crypto
 // Feldman VSS with qualification (one dealer instance)
 
 //@ pred qualShape(s) = s != nil && vssShape(s.feldmanVSSstate) && obj(s) != obj(s.feldmanVSSstate) && obj(s) != obj(s.dkgCommon) && s.complaints != nil
-//@ pred complaintsOK(s) = forall(k, 0, 256, has(s.complaints, k) ==> k < s.size && s.complaints[k] != nil && typed(s.complaints[k])) && forall(j, 0, 256, forall(k, 0, 256, has(s.complaints, j) && has(s.complaints, k) && j != k ==> s.complaints[j] != s.complaints[k]))
+//@ pred complaintsOK(s) = forall(k, 0, 256, has(s.complaints, k) ==> k < s.size && s.complaints[k] != nil && typed(s.complaints[k]) && ownedby(s.complaints[k], s.complaints)) && forall(j, 0, 256, forall(k, 0, 256, has(s.complaints, j) && has(s.complaints, k) && j != k ==> s.complaints[j] != s.complaints[k]))
 //@ pred ownComplaint(s) = has(s.complaints, s.myIndex) && s.complaints[s.myIndex].received
 //@ pred qualPhase(s) = (s.complaintsTimeout ==> s.sharesTimeout) && (s.vAReceived && !s.disqualified ==> len(s.vA) == s.threshold+1 && len(s.y) == s.size) && (s.running && s.myIndex == s.dealerIndex ==> len(s.a) == s.threshold+1) && (s.sharesTimeout && !s.disqualified ==> s.vAReceived) && (ownComplaint(s) ==> s.xReceived || s.sharesTimeout)
 //@ pred qualInv(s) = qualShape(s) && complaintsOK(s) && qualPhase(s)
@@ -382,7 +384,7 @@ package crypto
 
 //@ func (*feldmanVSSQualState).HandleBroadcastMsg mode int props C10 C08 C09
 //@ requires qualInv(s)
-//@ assigns *s, *s.feldmanVSSstate, obj(s.complaints), alltyped(complaint), ghost(s.processor)
+//@ assigns *s, *s.feldmanVSSstate, obj(s.complaints), owned(s.complaints, complaint), ghost(s.processor)
 //@ ensures [reject-idle] !old(s.running) ==> iserr(result, *dkgInvalidStateTransitionError) && nothingAssigned()
 //@ ensures [reject-origin] old(s.running) && (orig < 0 || orig >= s.size) ==> iserr(result, *invalidInputsError) && nothingAssigned()
 //@ ensures [accept] old(s.running) && 0 <= orig && orig < s.size ==> result == nil
@@ -390,7 +392,7 @@ package crypto
 
 //@ func (*feldmanVSSQualState).HandlePrivateMsg mode int props C10 C08 C09
 //@ requires qualInv(s)
-//@ assigns *s, *s.feldmanVSSstate, obj(s.complaints), alltyped(complaint), ghost(s.processor)
+//@ assigns *s, *s.feldmanVSSstate, obj(s.complaints), owned(s.complaints, complaint), ghost(s.processor)
 //@ ensures [reject-idle] !old(s.running) ==> iserr(result, *dkgInvalidStateTransitionError) && nothingAssigned()
 //@ ensures [reject-origin] old(s.running) && (orig < 0 || orig >= s.size) ==> iserr(result, *invalidInputsError) && nothingAssigned()
 //@ ensures [accept] old(s.running) && 0 <= orig && orig < s.size ==> result == nil
@@ -424,14 +426,15 @@ package crypto
 //@ requires qualInv(s) && s.running && !s.disqualified
 //@ requires [at-most-one-complaint] !ownComplaint(s)
 //@ assigns obj(s.complaints), ghost(s.processor)
-//@ ensures has(s.complaints, s.myIndex) && fresh(s.complaints[s.myIndex]) && typed(s.complaints[s.myIndex]) && s.complaints[s.myIndex].received && !s.complaints[s.myIndex].answerReceived
+//@ ensures has(s.complaints, s.myIndex) && fresh(s.complaints[s.myIndex]) && typed(s.complaints[s.myIndex]) && ownedby(s.complaints[s.myIndex], s.complaints) && s.complaints[s.myIndex].received && !s.complaints[s.myIndex].answerReceived
 //@ ensures forall(k, 0, 256, k != s.myIndex ==> has(s.complaints, k) == old(has(s.complaints, k)) && s.complaints[k] == old(s.complaints[k]))
 //@ ensures len(s.complaints) == old(len(s.complaints)) + ite(old(has(s.complaints, s.myIndex)), 0, 1)
+//@ ensures [complaints-ok] complaintsOK(s)
 
 //@ func (*feldmanVSSQualState).buildAndBroadcastComplaintAnswer mode int props C08 C09
 //@ requires qualInv(s) && s.running && s.myIndex == s.dealerIndex && has(s.complaints, complainee)
 //@ requires [answer-once] !s.complaints[complainee].answerReceived
-//@ assigns alltyped(complaint), ghost(s.processor)
+//@ assigns owned(s.complaints, complaint), ghost(s.processor)
 //@ ensures s.complaints[complainee].answerReceived && unchanged(s.complaints[complainee].received)
 //@ ensures forall(k, 0, 256, has(s.complaints, k) && k != complainee ==> unchanged(s.complaints[k].received) && unchanged(s.complaints[k].answerReceived))
 
@@ -441,11 +444,34 @@ package crypto
 
 //@ func (*feldmanVSSQualState).receiveComplaint mode int props C08 C09
 //@ requires qualInv(s) && s.running && !s.disqualified && origin != s.myIndex && origin < s.size
-//@ assigns *s, obj(s.complaints), alltyped(complaint), ghost(s.processor)
+//@ assigns *s, obj(s.complaints), owned(s.complaints, complaint), ghost(s.processor)
 //@ ensures [inv] qualInv(s) && phaseKept(s)
 
 //@ func (*feldmanVSSQualState).receiveComplaintAnswer mode int props C08 C09
 //@ requires qualInv(s) && s.running && !s.disqualified
-//@ assigns *s, *s.feldmanVSSstate, obj(s.complaints), alltyped(complaint), ghost(s.processor)
+//@ assigns *s, *s.feldmanVSSstate, obj(s.complaints), owned(s.complaints, complaint), ghost(s.processor)
 //@ ensures [inv] qualInv(s) && phaseKept(s)
 //@ ensures [bad-answer-size-disqualifies] old(origin == s.dealerIndex && len(data) != 33) ==> s.disqualified
+
+
+// ---------------------------------------------------------------------------------------------
+// Joint-Feldman: n Feldman-VSS-Qual instances sharing one dkgCommon
+
+//@ pred jfShape(s) = s != nil && commonOK(s.dkgCommon) && obj(s.dkgCommon) != obj(s) && len(s.fvss) == s.size && obj(s.fvss) != obj(s) && obj(s.fvss) != obj(s.dkgCommon)
+//@ pred jfInst(s, i) = qualInv(&s.fvss[i]) && s.fvss[i].dkgCommon == s.dkgCommon && s.fvss[i].dealerIndex == i && obj(s.fvss[i].feldmanVSSstate) != obj(s) && obj(s.fvss[i].feldmanVSSstate) != obj(s.fvss)
+//@ pred jfSep(s) = forall(i, 0, s.size, forall(j, 0, s.size, i != j ==> obj(s.fvss[i].feldmanVSSstate) != obj(s.fvss[j].feldmanVSSstate) && s.fvss[i].complaints != s.fvss[j].complaints))
+//@ pred jfLock(s) = forall(i, 0, s.size, s.fvss[i].sharesTimeout == s.fvss[0].sharesTimeout && s.fvss[i].complaintsTimeout == s.fvss[0].complaintsTimeout)
+//@ pred jfInv(s) = jfShape(s) && forall(i, 0, s.size, jfInst(s, i)) && jfSep(s) && jfLock(s) && (s.jointRunning ==> s.running)
+
+//@ func (*JointFeldmanState).Running mode int props C10
+//@ requires s != nil
+//@ assigns nothing
+//@ ensures result == s.jointRunning
+
+//@ func (*JointFeldmanState).ForceDisqualify mode int props C10 C09
+//@ requires jfInv(s)
+//@ assigns s.fvss[:]
+//@ ensures [reject-idle] !old(s.jointRunning) ==> iserr(result, *dkgInvalidStateTransitionError) && nothingAssigned()
+//@ ensures [reject-index] old(s.jointRunning) && (participant < 0 || participant >= s.size) ==> iserr(result, *invalidInputsError) && nothingAssigned()
+//@ ensures [accept] old(s.jointRunning) && 0 <= participant && participant < s.size ==> result == nil && s.fvss[participant].disqualified
+//@ ensures [inv] jfInv(s) && unchanged(s.jointRunning)
